@@ -628,6 +628,9 @@ func c03RcS(sb *strings.Builder, rs *resourceScope) {
 	if rs.done {
 		sb.WriteString(" done")
 	}
+	// fields a later version adds to a scope or its counters join the key (see seqmc.ExtraFields)
+	sb.WriteString(seqmc.ExtraFields(rs, "Mutex", "done", "refCnt", "spanID", "rc", "owner", "edges", "name", "trace", "metrics"))
+	sb.WriteString(seqmc.ExtraFields(rc, "limit", "nconnsIn", "nconnsOut", "nstreamsIn", "nstreamsOut", "nfd", "memory"))
 }
 
 func (in *c03Inst) spanDesc(h *c03Holder) string {
@@ -702,6 +705,7 @@ func (in *c03Inst) key() string {
 		fmt.Fprintf(&b, " e%s al=%v ip=%v peer=%v|%s fd=%v ep=%d al=%v peer=%d own=%d closed=%v %s>",
 			strings.Join(c03EdgeNames(cs.resourceScope, names), ","), cs.isAllowlisted, cs.ip.IsValid(), cs.peer != nil,
 			c03DirS(h.dir), h.fd, h.ep, h.allow, h.peer, h.own, h.closed, kidsDesc(h))
+		b.WriteString(seqmc.ExtraFields(cs, "resourceScope", "dir", "usefd", "isAllowlisted", "rcmgr", "peer", "endpoint", "ip"))
 		hs = append(hs, b.String())
 	}
 	for i, h := range in.m.streams {
@@ -712,6 +716,7 @@ func (in *c03Inst) key() string {
 		fmt.Fprintf(&b, " e%s proto=%v svc=%v|%s peer=%d proto=%d svc=%v own=%d closed=%v %s>",
 			strings.Join(c03EdgeNames(ss.resourceScope, names), ","), ss.proto != nil, ss.svc != nil,
 			c03DirS(h.dir), h.peer, h.proto, h.svc, h.own, h.closed, kidsDesc(h))
+		b.WriteString(seqmc.ExtraFields(ss, "resourceScope", "dir", "rcmgr", "peer", "svc", "proto", "peerProtoScope", "peerSvcScope"))
 		hs = append(hs, b.String())
 	}
 	for _, h := range in.m.spans {
@@ -727,6 +732,13 @@ func (in *c03Inst) key() string {
 	sb.WriteString("||")
 	for _, k := range c03SortedKeys(o.limiter) {
 		fmt.Fprintf(&sb, "%s=%d;", k, o.limiter[k])
+	}
+	if rm := in.rm; rm != nil {
+		sb.WriteString(seqmc.ExtraFields(rm, "limits", "connLimiter", "connRateLimiter", "verifySourceAddressRateLimiter", "trace", "metrics",
+			"disableMetrics", "allowlist", "system", "transient", "allowlistedSystem", "allowlistedTransient", "cancelCtx", "cancel", "wg",
+			"mx", "svc", "proto", "peer", "stickyProto", "stickyPeer", "connId", "streamId"))
+		sb.WriteString(seqmc.ExtraFields(rm.connLimiter, "mu", "networkPrefixLimitV4", "networkPrefixLimitV6", "connsPerNetworkPrefixV4",
+			"connsPerNetworkPrefixV6", "connLimitPerSubnetV4", "connLimitPerSubnetV6", "ip4connsPerLimit", "ip6connsPerLimit"))
 	}
 	return sb.String()
 }
